@@ -306,6 +306,7 @@ func (g *genCtx) dir(coarse bool) pipe.DirPlan {
 func genC14(tier string, r *core.Rand) Plan {
 	g := &genCtx{r: r, thorough: tier == "thorough"}
 	var p Plan
+	sideSlow := false
 	p.Mode = "serial"
 	if r.Chance(0.45) {
 		p.Mode = "tcp"
@@ -701,6 +702,17 @@ func genC14(tier string, r *core.Rand) Plan {
 		}
 	}
 
+	// ---- a second application goroutine asking for the version now and then
+	if r.Chance(0.12) {
+		for i, n := 0, r.Range(1, 8); i < n; i++ {
+			p.Side = append(p.Side, Step{Op: "version", DelayUs: g.delay()})
+		}
+		if r.Chance(0.6) && len(p.Link.AB.WriteDelayUs) == 0 {
+			// a slow port: every write of the host takes its time
+			sideSlow = true
+		}
+	}
+
 	// ---- backlog: more ARQ frames than the library queues (4096) arrive while
 	// the application is busy elsewhere; it comes back well within a minute
 	if nConn > 0 && len(t.Session) > 0 && r.Chance(0.004) {
@@ -725,7 +737,7 @@ func genC14(tier string, r *core.Rand) Plan {
 	// ---- links
 	p.Link = pipe.Plan{AB: g.dir(g.big), BA: g.dir(g.big)}
 	p.DataLink = pipe.Plan{AB: g.dir(g.big), BA: g.dir(g.big)}
-	if r.Chance(0.15) {
+	if r.Chance(0.15) || sideSlow {
 		p.Link.AB.WriteDelayUs = core.Tape(r, r.Range(1, 3), func() int { return r.Intn(3000) })
 	}
 	if g.serial {
